@@ -16,10 +16,32 @@ Definition type_of (td : typedef) : typedecl :=
   {| ty_extend := false; ty_name := name_tok (td_name td); ty_rels := map (decl_of td) (sorted_names td) |}.
 Definition file_types (m : model) : list typedecl := map type_of (m_types m).
 
+(* a rewrite without direct assignment never looks at the type restrictions *)
+Lemma count_children_zero cs : fold_right (fun c n => (count_direct c + n)%nat) 0%nat cs = 0%nat -> Forall (fun c => count_direct c = 0%nat) cs.
+Proof. induction cs as [|c cs IH]; cbn; intros H; [constructor|]. constructor; [lia|apply IH; lia]. Qed.
+
+Lemma tree_of_no_direct refs refs' u : carriable u = true -> count_direct u = 0%nat -> tree_of refs u = tree_of refs' u.
+Proof.
+  induction u as [| [|] | rel | ts cu | cs IH | cs IH | b s IHb IHs] using userset_ind'; intros Hc Hn; try discriminate Hc; try discriminate Hn; try reflexivity.
+  - cbn [carriable] in Hc. destruct (carriable_children cs Hc) as [_ Hall]. cbn [count_direct] in Hn. pose proof (count_children_zero cs Hn) as Hz.
+    rewrite !tree_of_union. f_equal. apply map_ext_in. intros c Hin.
+    assert (Hin' : In c cs) by (apply (Permutation_in c (prioritize_perm cs)); exact Hin).
+    rewrite Forall_forall in IH, Hall, Hz. apply IH; auto.
+  - cbn [carriable] in Hc. destruct (carriable_children cs Hc) as [_ Hall]. cbn [count_direct] in Hn. pose proof (count_children_zero cs Hn) as Hz.
+    rewrite !tree_of_inter. f_equal. apply map_ext_in. intros c Hin.
+    assert (Hin' : In c cs) by (apply (Permutation_in c (prioritize_perm cs)); exact Hin).
+    rewrite Forall_forall in IH, Hall, Hz. apply IH; auto.
+  - cbn [carriable] in Hc. apply andb_prop in Hc. destruct Hc as [Hb Hs]. cbn [count_direct] in Hn. cbn [tree_of].
+    rewrite (IHb Hb ltac:(lia)), (IHs Hs ltac:(lia)). reflexivity.
+Qed.
+
+Lemma rdef_of_no_direct refs refs' u : carriable u = true -> count_direct u = 0%nat -> rdef_of refs u = rdef_of refs' u.
+Proof. intros Hc Hn. unfold rdef_of. rewrite (tree_of_no_direct refs refs' u Hc Hn). reflexivity. Qed.
+
 (* the models covered: names are plain identifiers, every rewrite can be written in the DSL *)
 Definition rel_ok (td : typedef) (n : str) : Prop :=
   plain_name n = true /\ carriable (u_of td n) = true /\ expressible (u_of td n) = true /\ plain_u (u_of td n) /\
-  refs_of td n <> [] /\ Forall plain_ref (refs_of td n).
+  (count_direct (u_of td n) = 0%nat \/ refs_of td n <> []) /\ Forall plain_ref (refs_of td n).
 Definition td_ok (td : typedef) : Prop :=
   plain_name (td_name td) = true /\ NoDup (keys (td_rels td)) /\ forall n, In n (keys (td_rels td)) -> rel_ok td n.
 Definition model_ok (m : model) : Prop :=
@@ -101,7 +123,11 @@ Lemma decl_of_ok td n : rel_ok td n -> decl_lex_ok (decl_of td n) /\ decl_ok (de
 Proof.
   intros (Hn & Hc & He & Hpu & Hne & Hpr). unfold decl_of, decl_lex_ok, decl_ok. cbn [rl_name rl_def].
   destruct (printed_relation_denotes_normal_form (refs_of td n) (u_of td n) Hc He (plain_refs_ok _ Hpr)) as (t0 & _ & _ & Hwf & _).
-  destruct (rdef_of_toks_ok (refs_of td n) (u_of td n) Hne Hc) as [O1 O2].
+  assert (HO : toks_ok (rd_first (rdef_of (refs_of td n) (u_of td n))) /\ toks_ok_all (rd_rest (rdef_of (refs_of td n) (u_of td n)))).
+  { destruct Hne as [Hz|Hne]; [|apply rdef_of_toks_ok; assumption].
+    rewrite (rdef_of_no_direct (refs_of td n) [ {| rr_type := []; rr_kind := RPlain; rr_cond := [] |} ] (u_of td n) Hc Hz).
+    apply rdef_of_toks_ok; [discriminate|exact Hc]. }
+  destruct HO as [O1 O2].
   split; [split; [apply name_ok_name_tok; exact Hn|apply rdef_of_lex_ok; assumption]|].
   split; [apply ident_name_tok|]. split; [exact Hwf|]. split; assumption.
 Qed.
